@@ -546,6 +546,26 @@ def rule_r2(chk) -> None:
         ok, reason = _same_task(cfg, fn, r, first, rec, adv, nxt)
         chk.ob("C27.R2", "the returned task is the one journalled (fresh: key of the completed task; replay: task found by the expected key)", ok, m=m, node=r, fn=fn,
                instance=f"completed-return-task:{_slot(cfg, r)}", reason=reason)
+    # the adapter waits for tasks it does not own: a timeout must not cancel them (asyncio.wait_for cancels its awaitable on
+    # timeout unless it is shielded; asyncio.wait never cancels)
+    waits = [c for c in ast.walk(fn) if isinstance(c, ast.Call) and last(call_name(c)) == "wait_for" and c.args]
+    for c in waits:
+        arg = c.args[0]
+        if isinstance(arg, ast.Name):
+            d_ = expand(arg, c, depth=1)
+            if isinstance(d_, ast.Call) and last(call_name(d_)) == "shield":
+                arg = d_
+        shielded = isinstance(arg, ast.Call) and last(call_name(arg)) == "shield"
+        fresh = isinstance(arg, ast.Call) and not shielded  # a coroutine created in place for this wait: nothing else holds it
+        chk.ob("C27.R2", "waiting for the expected task with a timeout does not cancel it when the timeout fires (asyncio.shield)", shielded or fresh, m=m, node=c, fn=fn,
+               instance="replay-wait:no-cancel",
+               reason=f"`asyncio.wait_for({ast.unparse(c.args[0])[:40]}, …)` cancels the control loop's task when the timeout expires: the iteration returns no task, and the next one finds the "
+                      f"expected task cancelled — the recovered run cannot reach the recorded result")
+    cancels = [c for c in ast.walk(fn) if isinstance(c, ast.Call) and isinstance(c.func, ast.Attribute) and c.func.attr == "cancel" and not c.args]
+    for c in cancels:
+        chk.ob("C27.R2", "wait_for_next_task cancels none of the control loop's tasks", False, m=m, node=c, fn=fn, instance="replay-wait:no-cancel-call",
+               reason=f"`{ast.unparse(c)[:60]}` inside wait_for_next_task")
+    chk.floor("C27.R2", "timed waits for the journal's expected task", len(waits), 1)
     # load before lookup
     for c in nxt:
         off = cfg.must_pass([cfg.entry], cfg.nodes_of(enclosing_stmt(c)), [n for l in load for n in cfg.nodes_of(enclosing_stmt(l))], labels_excluded=X)
@@ -872,6 +892,9 @@ _DBI = "packages/llama-agents-dbos/src/llama_agents/dbos/idle_release.py"
 _PR = "packages/llama-agents-server/src/llama_agents/server/_runtime/persistence_runtime.py"
 
 TWINS = [
+    Twin("R2 replay wait without shield", _RT, "                    await asyncio.wait_for(asyncio.shield(target_task), timeout=timeout)", "                    await asyncio.wait_for(target_task, timeout=timeout)", "C27.R2"),
+    Twin("R2 benign: shield bound to a local first", _RT, "                    await asyncio.wait_for(asyncio.shield(target_task), timeout=timeout)", "                    guarded = asyncio.shield(target_task)\n                    await asyncio.wait_for(guarded, timeout=timeout)", None),
+
     # ---- R1
     Twin("R1 durable clock loses its step decorator", _RT, "@DBOS.step()\ndef _durable_time() -> float:", "def _durable_time() -> float:", "C27.R1"),
     Twin("R1 adapter reads the wall clock", _RT, "    async def get_now(self) -> float:\n        return _durable_time()\n", "    async def get_now(self) -> float:\n        return time.time()\n", "C27.R1"),
